@@ -1,5 +1,5 @@
 import IpcModel.Timed
-import IpcModel.Gen
+import IpcModel.GenTimed
 /-!
 # C10 — non-blocking and timed receives never block, miss a message, or poison
 
